@@ -122,6 +122,8 @@ def run(ctx):
     for i in range(4):
         tasks.append((c15.vmsa_task, dict(name='xl-vmsa-%d' % i, seed=ctx.seed + 300 + i, tables=2 if q else 40, per_table=40)))
         tasks.append((c15.vmsa_ld_task, dict(name='xl-lpae-%d' % i, seed=ctx.seed + 320 + i, tables=2 if q else 30, per_table=40)))
+        tasks.append((c15.vmsa_s2_task, dict(name='xl-s2-%d' % i, seed=ctx.seed + 360 + i, tables=2 if q else 30, per_table=40)))
+        tasks.append((c15.vmsa_hyp_task, dict(name='xl-hyp-%d' % i, seed=ctx.seed + 380 + i, tables=1 if q else 20, per_table=40)))
         tasks.append((c14.instr_task, dict(name='xl-mpu-instr-%d' % i, seed=ctx.seed + 340 + i, n=300 if q else 8000, modes='all',
                                            cfg={'arch_version': 6 + i % 2})))
     groups = C.parallel(_dispatch, tasks)
@@ -137,7 +139,7 @@ def run(ctx):
     ctx.extra['rule'] = ('all 2^16 16-bit Thumb words (quick: one IT position per word, thorough: outside / inside / '
                          'last), random + pattern-filled ARM and 32-bit Thumb words, random programs; modes usr/svc/'
                          'fiq/mon; configurations %s; MPU off and permissive-on; translate_address() and LDR/STR through random short- and '
-                         'long-descriptor page tables and load/store words against random MPU region tables; every event judged by Trace_Step '
+                         'long-descriptor page tables, two-stage (HCR.VM) and Hyp-regime translations, load/store words against random MPU region tables; every event judged by Trace_Step '
                          '(clauses hosterror, outcome)' % [c[0] for c in CONFIGS])
     outs = {}
     for g, e, v in res:
